@@ -90,16 +90,22 @@ PROPS: Dict[str, Dict[str, Any]] = {
     "C17": {"theorems": ["C17_tree_partial", "C17_scalar_tree", "C17_union_fixed_partial", "C17_optional_fixed",
                          "C17_ntuple_fixed", "D25_witness", "C17_scalar_fixed", "GateFix_none", "GateFix_default",
                          "ProcsFix_nil", "ProcsFix_builtin", "stripWith_idem", "loopItems_fixed", "C17_list_fixed",
-                         "C17_utuple_fixed", "C17_none", "C17_isDict"],
-            "modules": ["KodaModel.Properties.C17", "KodaModel.Properties.C17Union", "KodaModel.Properties.C17Tree"],
+                         "C17_utuple_fixed", "C17_none", "C17_isDict",
+                         "C17_set_fixed", "dedup_idem", "C17_map_fixed", "mapLoop_fixed", "C17_dictrecord_fixed",
+                         "C17_classrecord_fixed", "dictGet_presentOf", "recLoop_fixed"],
+            "modules": ["KodaModel.Properties.C17", "KodaModel.Properties.C17Union", "KodaModel.Properties.C17Tree",
+                        "KodaModel.Properties.C17Cont"],
             "level_note": "proved: C17_tree_partial - for every tree of the fragment fix17 (scalars with no coercer and at most "
                           "one built-in processor on strings, or their default coercer; equality / None / always-valid / "
-                          "is-dict validators; lists, uniform tuples and n-tuples without container predicates or object "
-                          "check; optionals, Maybe, user wrappers, Lazy through the environment; any depth), every input "
-                          "and fuel, Valid w implies that w is validated to Valid w.  Outside it: container predicates "
-                          "(open finding D22), unions (open finding D25: proved under the no-takeover hypothesis, "
-                          "C17_union_fixed_partial, with D25_witness showing the hypothesis is needed), sets, maps and "
-                          "records (correspondence + oracle only)",
+                          "is-dict validators; lists, sets, uniform tuples and n-tuples without container predicates or object "
+                          "check; maps without container predicates; DictValidatorAny / TypedDictValidator with string keys, "
+                          "any requiredness, either unknown-key policy, any whole-object check; DataclassValidator / "
+                          "NamedTupleValidator whose fields are all required; optionals, Maybe, user wrappers, Lazy through "
+                          "the environment; any depth), every input and fuel, Valid w implies that w is validated to Valid w.  "
+                          "Outside it: container predicates (open finding D22), unions (open finding D25: proved under the "
+                          "no-takeover hypothesis, C17_union_fixed_partial, with D25_witness showing the hypothesis is "
+                          "needed), RecordValidator (payload is whatever `into` returns), record coercers, class records "
+                          "with defaulted fields (a default is used on trust)",
             "stream": "core", "opts": {"salt": "c17", "async_rate": 0.1, "user_rate": 0.1},
             "quick_n": 8000, "thorough_n": 100000, "fields": ["out"]},
 }
